@@ -590,6 +590,23 @@ async fn fslog_open(case: &Value) -> Value {
     out
 }
 
+fn account_of(b: u64) -> sos_core::AccountId {
+    let mut a = [0u8; 20];
+    a[0] = b as u8;
+    a.into()
+}
+
+/// C11 part A: AccessControlConfig::is_allowed_access on concrete lists
+fn access_control(case: &Value) -> Value {
+    use std::collections::HashSet;
+    let list = |v: &Value| -> Option<HashSet<sos_core::AccountId>> {
+        v.as_array().map(|a| a.iter().map(|x| account_of(x.as_u64().unwrap())).collect())
+    };
+    let cfg = sos_server::AccessControlConfig { allow: list(&case["allow"]), deny: list(&case["deny"]) };
+    let admitted = cfg.is_allowed_access(&account_of(case["who"].as_u64().unwrap()));
+    json!({"outcome":"ok","admitted":admitted})
+}
+
 static TMP_COUNTER: std::sync::atomic::AtomicUsize = std::sync::atomic::AtomicUsize::new(0);
 
 fn tmp_path(tag: &str) -> std::path::PathBuf {
@@ -654,6 +671,7 @@ pub async fn run(case: &Value) -> Value {
     let op = case.get("op").and_then(|v| v.as_str()).unwrap_or("");
     match op {
         "compact" => compact_case(case).await,
+        "access_control" => access_control(case),
         "fslog_script" => fslog_script(case).await,
         "fslog_open" => fslog_open(case).await,
         "search_history" => search_history(case),
